@@ -561,7 +561,8 @@ class MonitoredFocusList(MonitoredList[_T], typing.Generic[_T]):
         MonitoredFocusList([-3, -2, -1, 0, 1, 2, 3], focus=5)
         """
         if not self:
-            return None
+            # nothing to keep track of, but the call is still checked like a list's
+            return super().sort(**kwargs)
         value = self[self._focus]
         rval = super().sort(**kwargs)
         self.focus = self.index(value)
